@@ -243,6 +243,8 @@ func H13_ack() {
 		vrtReach("C13.acked_unknown")
 	}
 	vrtCheckQueue(aq, abs)
+	// the queue stays usable: its mutex was released on every path
+	vrtAssert("C13.ack_wrong_type_refused", aq.Ack(message.NewConnackMessage()) != nil)
 	vrtObserve("ack", aq.count)
 }
 
